@@ -5,7 +5,7 @@ from __future__ import annotations
 
 from .. import models as M
 from .. import rulespace as RS
-from ..drive import eval_rule, make_evaluable, reuse_aware, to_filter, warmup
+from ..drive import eval_layer_rule, eval_rule, make_evaluable, reuse_aware, to_filter, warmup
 from ..msgparse import parse_message
 from . import c01
 
@@ -18,7 +18,9 @@ RULE_TEXT = (
     "map subject -> objects it is missing for, set of subjects missing any 'other' import; message parsed line by line "
     "(unparsable or duplicate lines are violations) and compared as sets in both directions. The three public query "
     "methods are called for every (graph, subjects, objects, kinds) and compared with the model's pair sets. "
-    "Non-trivial: the implementation raised AssertionError and the reference report has >= 1 line (rule cases), or the "
+    "Layer rules (C05's space: T4 partitions exhaustively for small import relations, Hypothesis layers) are covered too: "
+    "the report of a failing LayerRule must list exactly the forbidden imports of models.layer_analysis, each module with "
+    "its layer tag, and exactly the object layers without access. Non-trivial: the implementation raised AssertionError and the reference report has >= 1 line (rule cases), or the "
     "expected query result is non-empty (query cases); distinct by construction / by hash as in C01."
 )
 ASSUMPTIONS = c01.ASSUMPTIONS + [
@@ -144,12 +146,109 @@ def check_pair(tree, imports, rule, ev, impl_rule=None) -> dict:
 def check_case(spec: dict) -> dict:
     tree, imports = spec["tree"], [tuple(e) for e in spec["imports"]]
     ev = make_evaluable(tree, imports)
+    if spec.get("layers"):
+        return check_layer_report(tree, imports, spec["layers"], spec["rule"], ev)
     if spec.get("query"):
         return check_queries(tree, imports, spec["subj"], spec["obj"], ev)
     res = check_pair(tree, imports, spec.get("model_rule", spec["rule"]), ev, spec["rule"])
     if "model_rule" in spec:
         res["labels"].append("regex-form-of-a-named-side")
     return res
+
+
+# ----------------------------------------------------------------------------------- layer-rule reports
+
+
+def check_layer_report(tree, imports, layer_defs, rule, ev) -> dict:
+    """A failing LayerRule: the 'imports' / 'is imported by' lines are exactly the forbidden imports of the reference layer
+    semantics (models.layer_analysis), each with the layer tag of its two modules; 'Layer X does not import ...' lines name
+    exactly the object layers without any access."""
+    from . import c05
+
+    layers = {ld["name"]: ld["modules"] for ld in layer_defs}
+    kind, msg = eval_layer_rule(layer_defs, rule, ev)
+    sh = c05.shape_name(rule)
+    labels = ["layer-report", f"impl={kind}"]
+    if kind != "fail":
+        return {"violations": [], "nontrivial": False, "labels": labels}
+    an = M.layer_analysis(tree, imports, layers, rule)
+    if an["ok"]:
+        return {"violations": [], "nontrivial": False, "labels": labels + ["verdict-differs (C05's business)"]}
+    viols = []
+
+    def v(sig, detail):
+        viols.append({"sig": f"C03/layer-report/{sig}/{sh}", "key": {"shape": sh}, "detail": f"{detail}; layers={layers} rule={rule} message={msg!r}"})
+
+    I = set(map(tuple, imports))
+    fwd = rule["dir"] == "access"
+    got_pairs, got_me, got_mo = set(), [], False
+    tfz = frozenset(tree)
+    if len(set(msg.split("\n"))) != len(msg.split("\n")):
+        v("duplicate-line", "identical lines repeated")
+    for ln in parse_message(msg):
+        if ln["type"] == "pair":
+            pair = (ln["subj"], ln["obj"])
+            if (pair if fwd else (pair[1], pair[0])) not in I:
+                v("unreal-import", f"line names an import that does not exist: {pair}")
+            if (ln["verb"] == "import") != fwd:
+                v("wrong-verb", f"{ln}")
+            for who, tag in ((ln["subj"], ln["subj_tag"]), (ln["obj"], ln["obj_tag"])):
+                lo = M.layer_of(layers, tfz, who)
+                if tag != (("layer", lo) if lo else ("none",)):
+                    v("wrong-layer-tag", f"{who} is in {lo or 'no layer'} but tagged {tag}")
+            got_pairs.add(pair)
+        elif ln["type"] == "layer_missing_edge":
+            if ln["subj"] != rule["subj"]:
+                v("wrong-subject-layer", f"{ln}")
+            got_me += ln["objs"]
+        elif ln["type"] == "layer_missing_other":
+            if ln["subj"] != rule["subj"] or sorted(ln["objs"]) != sorted(rule["obj"] or [rule["subj"]]):
+                v("wrong-missing-other-line", f"{ln}")
+            got_mo = True
+        else:
+            v("unexpected-line", f"{ln}")
+    if got_pairs != an["forbidden"]:
+        extra, lost = got_pairs - an["forbidden"], an["forbidden"] - got_pairs
+        v("extra-pair" if extra else "lost-pair", f"reported {sorted(got_pairs)} != violating set {sorted(an['forbidden'])}")
+    if sorted(got_me) != an["missing_edge"]:
+        v("missing-edge-lines", f"layers reported as not accessed {sorted(got_me)} != {an['missing_edge']}")
+    if got_mo != an["missing_other"]:
+        v("missing-other-line", f"'any layer that is not' line present={got_mo}, expected={an['missing_other']}")
+    n = len(an["forbidden"]) + len(an["missing_edge"]) + int(an["missing_other"])
+    return {"violations": viols, "nontrivial": n >= 1, "labels": labels + [f"lines={min(n, 4)}"]}
+
+
+def layer_exh_shard(arg, stt, deadline) -> None:
+    from . import c05
+    from itertools import product
+
+    tkey, shard, nshards, max_edges = arg
+    tree = RS.TREES[tkey]
+    cand = M.candidate_edges(tree, allow_root_target=False, root=tree[0])
+    plans = []
+    for config in c05.CONFIGS[tkey]:
+        rules = c05.enum_layer_rules(list(config))
+        for kinds in product(("names", "regex"), repeat=len(config)):
+            plans.append((c05.defs_from(config, kinds), rules))
+    i = 0
+    for imports in RS.graphs_of(cand, shard, nshards, max_edges):
+        if RS.timed_out(deadline, i, 2):
+            stt.truncated = True
+            return
+        i += 1
+        ev = make_evaluable(tree, imports)
+        for layer_defs, rules in plans:
+            for rule in rules:
+                res = check_layer_report(tree, imports, layer_defs, rule, ev)
+                res["labels"] = res["labels"][:2]
+                stt.record({"tree": tree, "imports": imports, "layers": layer_defs, "rule": rule}, res, enumerated=True,
+                           sample=(i % 67 == 9 and rule["verb"] == "should_only" and not rule["exc"]))
+
+
+def layer_strategy(tier):
+    from . import c05
+
+    return c05.cases()
 
 
 # ----------------------------------------------------------------------------------- public query methods
@@ -251,3 +350,7 @@ def strategy(tier):
 
 def run(ctx) -> None:
     c01.run_space(ctx, MOD)
+    quick = ctx.tier == "quick"
+    ctx.exhaustive("layer-rule-reports-T4", MOD, "layer_exh_shard", [("T4", i, 32, 2 if quick else 4) for i in range(32)],
+                   f"T4: import relations with <= {2 if quick else 4} edges x 5 layer partitions x named/regex per layer x all layer rules: report of every failing layer rule")
+    ctx.random("layer-rule-reports-random", MOD, "layer_strategy", "check_case", 6000 if quick else 100000)
